@@ -1,5 +1,6 @@
 (* Props/C17.v -- property theorems for C17 only. *)
-From LV Require Import Base SpecDocs Argv ArgvFacts.
+From LV Require Import Base ImpPrims SpecDocs Argv ArgvTypes ArgvFacts.
+From LVGen Require Import GenLibcnbTest.
 From LV.Checks Require Import C17Hold C17Agree.
 From Coq Require Import String.
 Open Scope string_scope.
@@ -12,6 +13,76 @@ Print Assumptions c17_tables.
 
 (* docker's own option grammar reads back exactly the configured options, whatever the values are:
    the only hypothesis is about the generated image name *)
+(* a loop whose body appends words computed from the entry is a flat_map *)
+Lemma fold_left_flat {A} (f : list bytes -> A -> list bytes) (g : A -> list bytes) (l : list A) :
+  (forall a x, f a x = a ++ g x) -> forall acc, fold_left f l acc = acc ++ flat_map g l.
+Proof.
+  intros H. induction l as [|x l IH]; intros acc; cbn [fold_left flat_map]; [now rewrite app_nil_r|].
+  now rewrite IH, H, app_assoc.
+Qed.
+
+Lemma flat_map_map {A B} (g : A -> B) (f : B -> list bytes) (l : list A) :
+  flat_map f (map g l) = flat_map (fun x => f (g x)) l.
+Proof. induction l as [|x l IH]; cbn [map flat_map]; [reflexivity|now rewrite IH]. Qed.
+
+Definition pull_str (p : pull_policy) : bytes :=
+  match p with PullAlways => b "always" | PullIfNotPresent => b "if-not-present" | PullNever => b "never" end.
+Definition bp_str (r : bp_ref) : bytes := match r with BpId i => i | BpPath p => p end.
+
+(* impl From<DockerRunCommand> for Command, as the translator reads it from docker.rs statement by
+   statement (imp.rs), builds exactly the model's argv (program name first): the round-trip theorems
+   below are therefore about the code's own builder, re-derived from /repo on every run.  (Proofs
+   are kept here because they are about generated definitions.) *)
+Theorem c17_docker_run_regenerated :
+  forall c : run_cfg,
+    gen_docker_run_argv (r_name c) (r_detach c) (r_remove c) (r_platform c) (r_entrypoint c) (r_env c)
+                        (r_ports c) (r_mounts c) (r_image c) (r_command c)
+    = b "docker" :: argv_docker_run c.
+Proof.
+  intros [name det rm plat entry env ports mounts image cmd]. unfold gen_docker_run_argv, argv_docker_run.
+  cbn [Argv.r_name Argv.r_detach Argv.r_remove Argv.r_platform Argv.r_entrypoint Argv.r_env Argv.r_ports Argv.r_mounts Argv.r_image Argv.r_command].
+  rewrite (fold_left_flat _ (fun kv => [f_env; env_arg kv]) env) by (intros a [k v]; reflexivity).
+  rewrite (fold_left_flat _ (fun p => [f_publish; publish_arg p]) ports) by (intros a p; reflexivity).
+  rewrite (fold_left_flat _ (fun m => [f_mount; mount_arg m]) mounts) by (intros a [s t]; reflexivity).
+  destruct det, rm, plat, entry, cmd; cbn [opt_flag]; repeat rewrite <- app_assoc; reflexivity.
+Qed.
+Print Assumptions c17_docker_run_regenerated.
+
+Theorem c17_pack_build_regenerated :
+  forall img builder bc lc path pp refs env tb te,
+    gen_pack_build_argv img builder bc lc path pp refs env tb te
+    = b "pack" :: argv_pack_build (mkPack img builder bc lc path (pull_str pp) (map bp_str refs) env tb te).
+Proof.
+  intros. unfold gen_pack_build_argv, argv_pack_build.
+  cbn [Argv.k_image Argv.k_builder Argv.k_build_cache Argv.k_launch_cache Argv.k_path Argv.k_pull_policy Argv.k_buildpacks Argv.k_env Argv.k_trust_builder Argv.k_trust_extra].
+  rewrite (fold_left_flat _ (fun r => [g_buildpack; bp_str r]) refs) by (intros a [i|p]; reflexivity).
+  rewrite (fold_left_flat _ (fun kv => [g_env; env_arg kv]) env) by (intros a [k v]; reflexivity).
+  rewrite flat_map_map.
+  destruct pp, tb, te; repeat rewrite <- app_assoc; cbn [app]; rewrite ?app_nil_r; reflexivity.
+Qed.
+Print Assumptions c17_pack_build_regenerated.
+
+(* the removal commands of C16 and the remaining builders, as read from the source *)
+Theorem c17_other_builders_regenerated :
+  (forall n f, gen_docker_rm_argv n f = [b "docker"; b "rm"; n] ++ (if f then [b "--force"] else [])) /\
+  (forall n f, gen_docker_rmi_argv n f = [b "docker"; b "rmi"; n] ++ (if f then [b "--force"] else [])) /\
+  (forall vs f, gen_docker_volume_rm_argv vs f = [b "docker"; b "volume"; b "remove"] ++ vs ++ (if f then [b "--force"] else [])) /\
+  (forall n cmd, gen_docker_exec_argv n cmd = [b "docker"; b "exec"; n] ++ cmd) /\
+  (forall n f, gen_docker_logs_argv n f = [b "docker"; b "logs"; n] ++ (if f then [b "--follow"] else [])) /\
+  (forall n p, gen_docker_port_argv n p = [b "docker"; b "port"; n; show_port p]) /\
+  (forall img o, gen_pack_sbom_argv img o = [b "pack"; b "sbom"; b "download"; img] ++ opt_flag (b "--output-dir") o).
+Proof.
+  repeat (match goal with |- _ /\ _ => split end); intros.
+  - destruct f; reflexivity.
+  - destruct f; reflexivity.
+  - unfold gen_docker_volume_rm_argv. destruct f; repeat rewrite <- app_assoc; rewrite ?app_nil_r; reflexivity.
+  - unfold gen_docker_exec_argv. repeat rewrite <- app_assoc. reflexivity.
+  - destruct f; reflexivity.
+  - reflexivity.
+  - destruct o; reflexivity.
+Qed.
+Print Assumptions c17_other_builders_regenerated.
+
 Theorem c17_docker_run_roundtrip :
   forall c, starts_dash (r_image c) = false ->
     parse_opts docker_run_table false (tl (argv_docker_run c)) = Some (view_docker_run c).
